@@ -1,4 +1,4 @@
-import PikaVerif.Model.Deque
+import PikaVerif.Lemmas.Deque2
 /-!
 # C17 — concurrent queues return every element exactly once (lock-free deque, back-end adapters)
 
@@ -62,6 +62,83 @@ theorem C17_deque_conc_refuted :
     simp only [hs, Option.map_some, Option.some.injEq, Prod.mk.injEq] at h
     obtain ⟨h1, h2, h3, h4, h5, h6⟩ := h
     refine ⟨s, rfl, h1, h2, ?_, ?_, ?_, h3, h4, h5, h6⟩ <;> simp [h1, h2]
+
+/-! ## What does hold: executions without a stale link CAS
+
+`s.stale = false` says that no stabilisation link-CAS succeeded after the anchor it was computed
+for had changed (`stale` is a history flag of the model, set by `lcas`; it is sticky).  Without
+node recycling that situation cannot arise (link tags only grow); with the freelist it is exactly
+the ABA window exhibited above.  Under this hypothesis the deque is correct for every number of
+threads, every operation mix and every interleaving of the atomic steps, including the unstable
+`lpush`/`rpush` states, helping, and recycling of nodes. -/
+
+/-- **Exactly once (partial: no stale link CAS).**  At every point of every execution the values
+    pushed so far are, as a multiset, the values popped so far plus the values still stored in the
+    chain.  Hence nothing is invented or popped twice (`count popped ≤ count pushed` for every
+    value), and once the chain is empty the popped values are exactly the pushed values. -/
+theorem C17_deque_conc_partial (n : Nat) (log : List Ev) (s : St)
+    (h : runLog step (init n) log = some s) (hs : s.stale = false) :
+    s.pushed.Perm (s.popped ++ contents s) ∧
+    (∀ v, s.popped.count v ≤ s.pushed.count v) ∧
+    (s.chain = [] → s.popped.Perm s.pushed) := by
+  have hi := inv_of_accepted h hs
+  refine ⟨hi.cons, ?_, ?_⟩
+  · intro v
+    have := hi.cons.count_eq v
+    rw [List.count_append] at this
+    omega
+  · intro hc
+    have := hi.cons
+    simp only [contents, hc, List.map_nil, List.append_nil] at this
+    exact this.symm
+
+/-- **No element is delivered twice (partial: no stale link CAS).**  If the pushed values are
+    pairwise distinct then so are the popped values. -/
+theorem C17_deque_no_duplicate_partial (n : Nat) (log : List Ev) (s : St)
+    (h : runLog step (init n) log = some s) (hs : s.stale = false) (hd : s.pushed.Nodup) :
+    s.popped.Nodup := by
+  have hi := inv_of_accepted h hs
+  have := hi.cons.nodup_iff.1 hd
+  exact (List.nodup_append.1 this).1
+
+/-- **The anchor and the links describe the chain (partial: no stale link CAS).**  In every
+    reachable state the anchor's end pointers are the first and last node of the chain (null iff
+    it is empty), the chain has no repeated node, every chain node is allocated, and — outside the
+    one link that an unfinished push still has to set — neighbouring nodes point at each other. -/
+theorem C17_deque_chain_partial (n : Nat) (log : List Ev) (s : St)
+    (h : runLog step (init n) log = some s) (hs : s.stale = false) :
+    Glob s.anchor s.chain s.nodes s.used ∧ (s.anchor.l = 0 ↔ s.chain = []) ∧
+    (s.anchor.r = 0 ↔ s.chain = []) := by
+  have hi := inv_of_accepted h hs
+  refine ⟨hi.glob, ⟨fun h0 => hi.glob.nil_of_end false (by simpa [Anchor.endp] using h0), ?_⟩,
+    ⟨fun h0 => hi.glob.nil_of_end true (by simpa [Anchor.endp] using h0), ?_⟩⟩
+  · intro hc; have := hi.glob.hd; rw [hc] at this; simpa using this
+  · intro hc; have := hi.glob.lst; rw [hc] at this; simpa using this
+
+/-- **A pop reports "empty" only when the deque is empty (partial: no stale link CAS).**  The only
+    way a pop returns false is the anchor load that finds its end pointer null; at that moment the
+    chain is empty.  So a pop on a non-empty deque — quiescent or not — never fails. -/
+theorem C17_deque_pop_false_only_if_empty_partial (n : Nat) (log : List Ev) (s s' : St)
+    (h : runLog step (init n) log = some s) (hs : s.stale = false) (t : Nat) (a : Anchor) (d : Bool)
+    (hpc : s.pc t = .popLd d) (hstep : step s (.ld t a) = some s')
+    (hret : s'.pc t = .retn false 0) : contents s = [] := by
+  have hi := inv_of_accepted h hs
+  simp only [step] at hstep
+  split at hstep
+  case isFalse => simp at hstep
+  rename_i hg
+  obtain ⟨_, ha⟩ := hg
+  subst ha
+  rw [hpc] at hstep
+  simp only [Option.some.injEq] at hstep
+  subst hstep
+  simp only [upd_same] at hret
+  by_cases h0 : s.anchor.endp d = 0
+  · simp [contents, hi.glob.nil_of_end d h0]
+  · simp only [h0, if_false] at hret
+    split at hret
+    · simp at hret
+    · split at hret <;> simp at hret
 
 /-! ## Back-end adapters use the ends they claim -/
 
